@@ -39,6 +39,9 @@ CHECKS = {
  "C08": ("model_checking", "exhaustive enumeration of will settings x connection endings x follow-up sequences with a virtual clock on the real in-process broker vs a reference will machine",
   "Every will setting (QoS, retain, delay, properties, version, session expiry) x 9 ways a connection can end x every sequence of <=2 (quick) / <=3 (thorough) follow-ups (clock advances around the delay and the sweeper tick, reconnect clean 0/1) on a fresh broker; after every step the number of will copies received by an independent Retain-As-Published subscriber and their content (topic, payload, QoS, RETAIN, properties) must equal the reference will machine.",
   "Default schedule; virtual time moves only between quiescent points. A reconnect within 1s of the due instant is not judged. Stop() as an ending is left to C15. Trusted: vsched clock/memconn deadlines, refmqtt.", "DESIGN.md 8/C08"),
+ "C12": ("model_checking", "exhaustive grid enumeration with a virtual clock on the real in-process broker (expiry x configured cap x waiting mode x waiting time x versions)",
+  "The full grid of Message Expiry Interval {absent,2,5,100} x message_expiry {none,3s,10s} x {online, offline then reconnect, window full} x waiting time {0, L-1, L+1, L+30} x publisher/subscriber versions x QoS, each point on a fresh broker: delivered exactly once with the remaining lifetime, or not delivered and reported dropped as expired exactly once.",
+  "W == L is not generated (boundary second). For intervals above the configured cap both E-W and M-W are accepted as forwarded value. Trusted: virtual clock, refmqtt.", "DESIGN.md 8/C12"),
 }
 NA_DEFAULT = "check not built yet in this session (planned design in DESIGN.md section 8)"
 
